@@ -7,63 +7,63 @@ open ImathVerif
 
 /-- extracted from the C++ template at T = Sym; 1 path(s) -/
 def M44.setEulerAngles {α : Type} [Add α] [Mul α] [Neg α] [OfNat α 0] [OfNat α 1] (sin : α → α) (cos : α → α) (m : M44 α) (r : V3 α) : (M44 α) :=
-  let t21 := (cos r.z)
-  let t22 := (cos r.y)
-  let t23 := (cos r.x)
-  let t24 := (sin r.z)
-  let t25 := (sin r.y)
-  let t26 := (sin r.x)
-  let t30 := (t21 * t25)
-  let t35 := (t24 * t25)
-  ⟨(t21 * t22), (t24 * t22), (-t25), (0 : α), (((-t24) * t23) + (t30 * t26)), ((t21 * t23) + (t35 * t26)), (t22 * t26), (0 : α), ((t24 * t26) + (t30 * t23)), (((-t21) * t26) + (t35 * t23)), (t22 * t23), (0 : α), (0 : α), (0 : α), (0 : α), (1 : α)⟩
+  let t2600 := (cos r.z)
+  let t2601 := (cos r.y)
+  let t2602 := (cos r.x)
+  let t2603 := (sin r.z)
+  let t2604 := (sin r.y)
+  let t2605 := (sin r.x)
+  let t2609 := (t2600 * t2604)
+  let t2614 := (t2603 * t2604)
+  ⟨(t2600 * t2601), (t2603 * t2601), (-t2604), (0 : α), (((-t2603) * t2602) + (t2609 * t2605)), ((t2600 * t2602) + (t2614 * t2605)), (t2601 * t2605), (0 : α), ((t2603 * t2605) + (t2609 * t2602)), (((-t2600) * t2605) + (t2614 * t2602)), (t2601 * t2602), (0 : α), (0 : α), (0 : α), (0 : α), (1 : α)⟩
 
 /-- extracted from the C++ template at T = Sym; 2 path(s) -/
 def M44.setAxisAngle {α : Type} [Add α] [Sub α] [Mul α] [Div α] [Neg α] [LT α] [LE α] [DecidableLT α] [DecidableLE α] [DecidableEq α] [OfNat α 0] [OfNat α 1] [OfNat α 2] (tmin : α) (sqrt : α → α) (sin : α → α) (cos : α → α) (m : M44 α) (axis : V3 α) (angle : α) : (M44 α) :=
-  let t52 := (V3.length tmin sqrt ⟨axis.x, axis.y, axis.z⟩)
-  let t53 := (sin angle)
-  let t54 := (cos angle)
-  let t55 := ((1 : α) - t54)
-  let t57 := (((0 : α) * (0 : α)) * t55)
-  let t58 := (t57 + t54)
-  let t59 := ((0 : α) * t53)
-  let t60 := (t57 + t59)
-  let t61 := (t57 - t59)
-  let t62 := (axis.z / t52)
-  let t63 := (axis.y / t52)
-  let t64 := (axis.x / t52)
-  let t68 := (t62 * t53)
-  let t70 := ((t64 * t63) * t55)
-  let t72 := (t63 * t53)
-  let t74 := ((t64 * t62) * t55)
-  let t80 := (t64 * t53)
-  let t82 := ((t63 * t62) * t55)
-  if t52 = (0 : α) then
-    ⟨t58, t60, t61, (0 : α), t61, t58, t60, (0 : α), t60, t61, t58, (0 : α), (0 : α), (0 : α), (0 : α), (1 : α)⟩
+  let t2631 := (V3.length tmin sqrt ⟨axis.x, axis.y, axis.z⟩)
+  let t2632 := (sin angle)
+  let t2633 := (cos angle)
+  let t2634 := ((1 : α) - t2633)
+  let t2635 := (((0 : α) * (0 : α)) * t2634)
+  let t2636 := (t2635 + t2633)
+  let t2637 := ((0 : α) * t2632)
+  let t2638 := (t2635 + t2637)
+  let t2639 := (t2635 - t2637)
+  let t2640 := (axis.z / t2631)
+  let t2641 := (axis.y / t2631)
+  let t2642 := (axis.x / t2631)
+  let t2646 := (t2640 * t2632)
+  let t2648 := ((t2642 * t2641) * t2634)
+  let t2650 := (t2641 * t2632)
+  let t2652 := ((t2642 * t2640) * t2634)
+  let t2658 := (t2642 * t2632)
+  let t2660 := ((t2641 * t2640) * t2634)
+  if t2631 = (0 : α) then
+    ⟨t2636, t2638, t2639, (0 : α), t2639, t2636, t2638, (0 : α), t2638, t2639, t2636, (0 : α), (0 : α), (0 : α), (0 : α), (1 : α)⟩
   else
-    ⟨(((t64 * t64) * t55) + t54), (t70 + t68), (t74 - t72), (0 : α), (t70 - t68), (((t63 * t63) * t55) + t54), (t82 + t80), (0 : α), (t74 + t72), (t82 - t80), (((t62 * t62) * t55) + t54), (0 : α), (0 : α), (0 : α), (0 : α), (1 : α)⟩
+    ⟨(((t2642 * t2642) * t2634) + t2633), (t2648 + t2646), (t2652 - t2650), (0 : α), (t2648 - t2646), (((t2641 * t2641) * t2634) + t2633), (t2660 + t2658), (0 : α), (t2652 + t2650), (t2660 - t2658), (((t2640 * t2640) * t2634) + t2633), (0 : α), (0 : α), (0 : α), (0 : α), (1 : α)⟩
 
 /-- extracted from the C++ template at T = Sym; 1 path(s) -/
 def M44.rotate {α : Type} [Add α] [Mul α] [Neg α] (sin : α → α) (cos : α → α) (m : M44 α) (r : V3 α) : (M44 α) :=
-  let t21 := (cos r.z)
-  let t22 := (cos r.y)
-  let t23 := (cos r.x)
-  let t24 := (sin r.z)
-  let t25 := (sin r.y)
-  let t26 := (sin r.x)
-  let t27 := (t21 * t22)
-  let t28 := (t24 * t22)
-  let t29 := (-t25)
-  let t30 := (t21 * t25)
-  let t32 := (-t24)
-  let t34 := ((t32 * t23) + (t30 * t26))
-  let t35 := (t24 * t25)
-  let t38 := ((t21 * t23) + (t35 * t26))
-  let t39 := (t22 * t26)
-  let t47 := (t22 * t23)
-  let t89 := (-t26)
-  let t91 := ((t32 * t89) + (t30 * t23))
-  let t93 := ((t21 * t89) + (t35 * t23))
-  ⟨(((m.x00 * t27) + (m.x10 * t28)) + (m.x20 * t29)), (((m.x01 * t27) + (m.x11 * t28)) + (m.x21 * t29)), (((m.x02 * t27) + (m.x12 * t28)) + (m.x22 * t29)), (((m.x03 * t27) + (m.x13 * t28)) + (m.x23 * t29)), (((m.x00 * t34) + (m.x10 * t38)) + (m.x20 * t39)), (((m.x01 * t34) + (m.x11 * t38)) + (m.x21 * t39)), (((m.x02 * t34) + (m.x12 * t38)) + (m.x22 * t39)), (((m.x03 * t34) + (m.x13 * t38)) + (m.x23 * t39)), (((m.x00 * t91) + (m.x10 * t93)) + (m.x20 * t47)), (((m.x01 * t91) + (m.x11 * t93)) + (m.x21 * t47)), (((m.x02 * t91) + (m.x12 * t93)) + (m.x22 * t47)), (((m.x03 * t91) + (m.x13 * t93)) + (m.x23 * t47)), m.x30, m.x31, m.x32, m.x33⟩
+  let t2600 := (cos r.z)
+  let t2601 := (cos r.y)
+  let t2602 := (cos r.x)
+  let t2603 := (sin r.z)
+  let t2604 := (sin r.y)
+  let t2605 := (sin r.x)
+  let t2606 := (t2600 * t2601)
+  let t2607 := (t2603 * t2601)
+  let t2608 := (-t2604)
+  let t2609 := (t2600 * t2604)
+  let t2611 := (-t2603)
+  let t2613 := ((t2611 * t2602) + (t2609 * t2605))
+  let t2614 := (t2603 * t2604)
+  let t2617 := ((t2600 * t2602) + (t2614 * t2605))
+  let t2618 := (t2601 * t2605)
+  let t2626 := (t2601 * t2602)
+  let t2667 := (-t2605)
+  let t2669 := ((t2611 * t2667) + (t2609 * t2602))
+  let t2671 := ((t2600 * t2667) + (t2614 * t2602))
+  ⟨(((m.x00 * t2606) + (m.x10 * t2607)) + (m.x20 * t2608)), (((m.x01 * t2606) + (m.x11 * t2607)) + (m.x21 * t2608)), (((m.x02 * t2606) + (m.x12 * t2607)) + (m.x22 * t2608)), (((m.x03 * t2606) + (m.x13 * t2607)) + (m.x23 * t2608)), (((m.x00 * t2613) + (m.x10 * t2617)) + (m.x20 * t2618)), (((m.x01 * t2613) + (m.x11 * t2617)) + (m.x21 * t2618)), (((m.x02 * t2613) + (m.x12 * t2617)) + (m.x22 * t2618)), (((m.x03 * t2613) + (m.x13 * t2617)) + (m.x23 * t2618)), (((m.x00 * t2669) + (m.x10 * t2671)) + (m.x20 * t2626)), (((m.x01 * t2669) + (m.x11 * t2671)) + (m.x21 * t2626)), (((m.x02 * t2669) + (m.x12 * t2671)) + (m.x22 * t2626)), (((m.x03 * t2669) + (m.x13 * t2671)) + (m.x23 * t2626)), m.x30, m.x31, m.x32, m.x33⟩
 
 /-- extracted from the C++ template at T = Sym; 1 path(s) -/
 def M44.setScaleS {α : Type} [OfNat α 0] [OfNat α 1] (m : M44 α) (s : α) : (M44 α) :=
@@ -87,7 +87,8 @@ def M44.translation {α : Type} (m : M44 α) : (V3 α) :=
 
 /-- extracted from the C++ template at T = Sym; 1 path(s) -/
 def M44.translate {α : Type} [Add α] [Mul α] (m : M44 α) (t : V3 α) : (M44 α) :=
-  ⟨m.x00, m.x01, m.x02, m.x03, m.x10, m.x11, m.x12, m.x13, m.x20, m.x21, m.x22, m.x23, (m.x30 + (((t.x * m.x00) + (t.y * m.x10)) + (t.z * m.x20))), (m.x31 + (((t.x * m.x01) + (t.y * m.x11)) + (t.z * m.x21))), (m.x32 + (((t.x * m.x02) + (t.y * m.x12)) + (t.z * m.x22))), (m.x33 + (((t.x * m.x03) + (t.y * m.x13)) + (t.z * m.x23)))⟩
+  let t2752 := (t.y * m.x10)
+  ⟨m.x00, m.x01, m.x02, m.x03, m.x10, m.x11, m.x12, m.x13, m.x20, m.x21, m.x22, m.x23, (m.x30 + (((t.x * m.x00) + t2752) + (t.z * m.x20))), (m.x31 + (((t.x * m.x01) + t2752) + (t.z * m.x21))), (m.x32 + (((t.x * m.x02) + (t.y * m.x12)) + (t.z * m.x22))), (m.x33 + (((t.x * m.x03) + (t.y * m.x13)) + (t.z * m.x23)))⟩
 
 /-- extracted from the C++ template at T = Sym; 1 path(s) -/
 def M44.setShearV {α : Type} [OfNat α 0] [OfNat α 1] (m : M44 α) (h : V3 α) : (M44 α) :=
@@ -107,23 +108,24 @@ def M44.shear6 {α : Type} [Add α] [Mul α] (m : M44 α) (h : Shear6 α) : (M44
 
 /-- extracted from the C++ template at T = Sym; 1 path(s) -/
 def M44.translateRet {α : Type} [Add α] [Mul α] (m : M44 α) (t : V3 α) : (M44 α) :=
-  ⟨m.x00, m.x01, m.x02, m.x03, m.x10, m.x11, m.x12, m.x13, m.x20, m.x21, m.x22, m.x23, (m.x30 + (((t.x * m.x00) + (t.y * m.x10)) + (t.z * m.x20))), (m.x31 + (((t.x * m.x01) + (t.y * m.x11)) + (t.z * m.x21))), (m.x32 + (((t.x * m.x02) + (t.y * m.x12)) + (t.z * m.x22))), (m.x33 + (((t.x * m.x03) + (t.y * m.x13)) + (t.z * m.x23)))⟩
+  let t2752 := (t.y * m.x10)
+  ⟨m.x00, m.x01, m.x02, m.x03, m.x10, m.x11, m.x12, m.x13, m.x20, m.x21, m.x22, m.x23, (m.x30 + (((t.x * m.x00) + t2752) + (t.z * m.x20))), (m.x31 + (((t.x * m.x01) + t2752) + (t.z * m.x21))), (m.x32 + (((t.x * m.x02) + (t.y * m.x12)) + (t.z * m.x22))), (m.x33 + (((t.x * m.x03) + (t.y * m.x13)) + (t.z * m.x23)))⟩
 
 /-- extracted from the C++ template at T = Sym; 1 path(s) -/
 def M33.setRotation {α : Type} [Neg α] [OfNat α 0] [OfNat α 1] (sin : α → α) (cos : α → α) (m : M33 α) (r : α) : (M33 α) :=
-  let t279 := (cos r)
-  let t280 := (sin r)
-  ⟨t279, t280, (0 : α), (-t280), t279, (0 : α), (0 : α), (0 : α), (1 : α)⟩
+  let t2856 := (cos r)
+  let t2857 := (sin r)
+  ⟨t2856, t2857, (0 : α), (-t2857), t2856, (0 : α), (0 : α), (0 : α), (1 : α)⟩
 
 /-- extracted from the C++ template at T = Sym; 1 path(s) -/
 def M33.rotate {α : Type} [Add α] [Mul α] [Neg α] [OfNat α 0] [OfNat α 1] (sin : α → α) (cos : α → α) (m : M33 α) (r : α) : (M33 α) :=
-  let t279 := (cos r)
-  let t280 := (sin r)
-  let t281 := (-t280)
-  let t282 := (m.x02 * (0 : α))
-  let t296 := (m.x12 * (0 : α))
-  let t310 := (m.x22 * (0 : α))
-  ⟨(((m.x00 * t279) + (m.x01 * t281)) + t282), (((m.x00 * t280) + (m.x01 * t279)) + t282), (((m.x00 * (0 : α)) + (m.x01 * (0 : α))) + (m.x02 * (1 : α))), (((m.x10 * t279) + (m.x11 * t281)) + t296), (((m.x10 * t280) + (m.x11 * t279)) + t296), (((m.x10 * (0 : α)) + (m.x11 * (0 : α))) + (m.x12 * (1 : α))), (((m.x20 * t279) + (m.x21 * t281)) + t310), (((m.x20 * t280) + (m.x21 * t279)) + t310), (((m.x20 * (0 : α)) + (m.x21 * (0 : α))) + (m.x22 * (1 : α)))⟩
+  let t2856 := (cos r)
+  let t2857 := (sin r)
+  let t2858 := (-t2857)
+  let t2859 := (m.x02 * (0 : α))
+  let t2873 := (m.x12 * (0 : α))
+  let t2887 := (m.x22 * (0 : α))
+  ⟨(((m.x00 * t2856) + (m.x01 * t2858)) + t2859), (((m.x00 * t2857) + (m.x01 * t2856)) + t2859), (((m.x00 * (0 : α)) + (m.x01 * (0 : α))) + (m.x02 * (1 : α))), (((m.x10 * t2856) + (m.x11 * t2858)) + t2873), (((m.x10 * t2857) + (m.x11 * t2856)) + t2873), (((m.x10 * (0 : α)) + (m.x11 * (0 : α))) + (m.x12 * (1 : α))), (((m.x20 * t2856) + (m.x21 * t2858)) + t2887), (((m.x20 * t2857) + (m.x21 * t2856)) + t2887), (((m.x20 * (0 : α)) + (m.x21 * (0 : α))) + (m.x22 * (1 : α)))⟩
 
 /-- extracted from the C++ template at T = Sym; 1 path(s) -/
 def M33.setScaleS {α : Type} [OfNat α 0] [OfNat α 1] (m : M33 α) (s : α) : (M33 α) :=
@@ -167,16 +169,16 @@ def M33.shearV {α : Type} [Add α] [Mul α] (m : M33 α) (h : V2 α) : (M33 α)
 
 /-- extracted from the C++ template at T = Sym; 1 path(s) -/
 def M22.setRotation {α : Type} [Neg α] (sin : α → α) (cos : α → α) (m : M22 α) (r : α) : (M22 α) :=
-  let t279 := (cos r)
-  let t280 := (sin r)
-  ⟨t279, t280, (-t280), t279⟩
+  let t2856 := (cos r)
+  let t2857 := (sin r)
+  ⟨t2856, t2857, (-t2857), t2856⟩
 
 /-- extracted from the C++ template at T = Sym; 1 path(s) -/
 def M22.rotate {α : Type} [Add α] [Mul α] [Neg α] [OfNat α 0] (sin : α → α) (cos : α → α) (m : M22 α) (r : α) : (M22 α) :=
-  let t279 := (cos r)
-  let t280 := (sin r)
-  let t281 := (-t280)
-  ⟨(((0 : α) + (m.x00 * t279)) + (m.x01 * t281)), (((0 : α) + (m.x00 * t280)) + (m.x01 * t279)), (((0 : α) + (m.x10 * t279)) + (m.x11 * t281)), (((0 : α) + (m.x10 * t280)) + (m.x11 * t279))⟩
+  let t2856 := (cos r)
+  let t2857 := (sin r)
+  let t2858 := (-t2857)
+  ⟨(((0 : α) + (m.x00 * t2856)) + (m.x01 * t2858)), (((0 : α) + (m.x00 * t2857)) + (m.x01 * t2856)), (((0 : α) + (m.x10 * t2856)) + (m.x11 * t2858)), (((0 : α) + (m.x10 * t2857)) + (m.x11 * t2856))⟩
 
 /-- extracted from the C++ template at T = Sym; 1 path(s) -/
 def M22.setScaleS {α : Type} [OfNat α 0] (m : M22 α) (s : α) : (M22 α) :=
